@@ -29,8 +29,9 @@ Regs ==
     IF Mode \in {"life", "life2"} THEN { [i \in 1..n |-> T(A, <<"t", ToString(i)>>, FALSE)] : n \in 0..MaxTests }
     ELSE IF Mode \in {"select", "list"} THEN
         UNION { [1..n -> { T(gg, nn, ig) : gg \in {A, AB, B}, nn \in {X, XY}, ig \in BOOLEAN }] : n \in 0..MaxTests }
-    \* "ptr": plugins are also installed / removed between the tests of the run
-    ELSE UNION { { [i \in 1..n |-> TA(A, <<"t", ToString(i)>>, FALSE, af[i])] : af \in [1..n -> ChainOps] } : n \in 1..MaxTests }
+    \* "ptr": plugins are also installed / removed between the tests of the run (what is done after the last test of a single
+    \* repetition nobody observes: none there - it only multiplies the states)
+    ELSE UNION { { [i \in 1..n |-> TA(A, <<"t", ToString(i)>>, FALSE, af[i])] : af \in { f \in [1..n -> ChainOps] : f[n] = <<>> } } : n \in 1..MaxTests }
 Cfgs ==
     IF Mode = "life" THEN { Cfg(rp, FALSE, FALSE, FALSE, <<>>, <<>>, pl) : rp \in 1..2, pl \in { <<>>, <<Pl("P1", TRUE, TRUE)>> } }
     ELSE IF Mode = "life2" THEN { Cfg(rp, FALSE, FALSE, FALSE, <<>>, <<>>, <<>>) : rp \in 2..3 }
